@@ -622,4 +622,16 @@ theorem samplePolicy_image : PolicyImage samplePolicy = true := by
 example : parsePolicy "p0" (printPolicy (fun c => c.toNat ≥ 127) samplePolicy) = some samplePolicy :=
   policy_parse_print _ _ samplePolicy_image
 
+-- what the printer produces for it: ONE `when` clause holding the folded condition
+--   @id("a\"b") permit(principal == ?principal, action, resource is Ns::User in ?resource) when { context.x && (!(principal has y)) };
+example : printPolicy (fun _ => false) samplePolicy =
+    [.at, .ident "id", .lparen, .str ['a', '\\', '"', 'b'], .rparen, .ident "permit", .lparen,
+     .ident "principal", .eqeq, .slot "?principal", .comma, .ident "action", .comma,
+     .ident "resource", .ident "is", .ident "Ns", .dcolon, .ident "User", .ident "in", .slot "?resource", .rparen,
+     .ident "when", .lbrace, .ident "context", .dot, .ident "x", .andand, .lparen, .bang, .lparen, .ident "principal", .ident "has",
+     .ident "y", .rparen, .rparen, .rbrace, .semi] := by
+  simp [printPolicy, samplePolicy, printAnnots, printScope, printAction, printCond, printE, refExpr, nameTokens, splitOn_NsUser,
+    effectName, slotName, varName, paren, needsParens, isAnd, keyTok, strTok, isNormalizedIdent]
+  decide
+
 end Cedar.C05
